@@ -207,8 +207,9 @@ func check(c Case) error {
 				}
 			case err != nil:
 				if canon.ErrClass(err) == "timeout" {
+					// a catastrophic generated pattern: every further limit would cost the full safety timeout again
 					h.Discard("timeout")
-					continue
+					return nil
 				}
 				return fail("unexpected error " + err.Error())
 			default:
